@@ -247,3 +247,25 @@ package mocks
 //@ func (sp *SyncProducer) ExpectSendMessageWithMessageCheckerFunctionAndFail(cf, err) props C20
 //@   ensures[appended_at_the_end] len(sp.expectations) == acq(len(sp.expectations)) + 1 && forall k :: 0 <= k && k < acq(len(sp.expectations)) ==> sp.expectations[k] == acq(sp.expectations[k])
 //@   ensures[scripted_error] sp.expectations[len(sp.expectations) - 1] != nil && sp.expectations[len(sp.expectations) - 1].Result == err
+
+// HighWaterMarks: one map per registered topic, holding exactly that topic's registered partitions, each with the
+// high-water mark of its own mock (one past the offset of the last yielded message).
+//@ func (c *Consumer) HighWaterMarks() props C20
+//@   returns hwms
+//@   requires c.partitionConsumers != nil
+//@   assume_acq forall t string, p int32 :: haskey(c.partitionConsumers, t) && haskey(c.partitionConsumers[t], p) ==> c.partitionConsumers[t][p] != nil && c.partitionConsumers[t][p].highWaterMarkOffset < 4611686018427387904
+//@   loopname topics: range c.partitionConsumers
+//@   loopname parts: range partitionConsumers
+//@   loop topics: invariant hwms != nil && fresh(hwms)
+//@   loop topics: invariant[topic_maps_done] forall t string :: $visited[t] ==> haskey(hwms, t) && hwms[t] != nil && allocated(hwms[t]) && hwms[t] != hwms && (forall p int32 :: haskey(hwms[t], p) == haskey(c.partitionConsumers[t], p)) && (forall p int32 :: haskey(c.partitionConsumers[t], p) ==> hwms[t][p] == c.partitionConsumers[t][p].highWaterMarkOffset + 1)
+//@   loop topics: invariant[topic_maps_distinct] forall a string, b string :: $visited[a] && $visited[b] && a != b ==> hwms[a] != hwms[b]
+//@   loop topics: invariant[only_visited] forall t string :: haskey(hwms, t) ==> $visited[t]
+//@   loop parts: invariant hwm != nil && fresh(hwm) && allocated(hwm) && hwm != hwms && partitionConsumers == c.partitionConsumers[topic] && haskey(c.partitionConsumers, topic) && hwms != nil && fresh(hwms)
+//@   loop parts: invariant[not_yet_published] forall t string :: haskey(hwms, t) ==> hwms[t] != hwm
+//@   loop parts: invariant[only_visited] forall t string :: haskey(hwms, t) ==> $visited_topics[t] && t != topic
+//@   loop parts: invariant[partitions_so_far] (forall p int32 :: haskey(hwm, p) == $visited[p]) && (forall p int32 :: $visited[p] ==> haskey(partitionConsumers, p) && hwm[p] == partitionConsumers[p].highWaterMarkOffset + 1)
+//@   loop parts: invariant[topic_maps_done] forall t string :: $visited_topics[t] && t != topic ==> haskey(hwms, t) && hwms[t] != nil && allocated(hwms[t]) && hwms[t] != hwms && (forall p int32 :: haskey(hwms[t], p) == haskey(c.partitionConsumers[t], p)) && (forall p int32 :: haskey(c.partitionConsumers[t], p) ==> hwms[t][p] == c.partitionConsumers[t][p].highWaterMarkOffset + 1)
+//@   loop parts: invariant[topic_maps_distinct] forall a string, b string :: $visited_topics[a] && $visited_topics[b] && a != b && a != topic && b != topic ==> hwms[a] != hwms[b]
+//@   ensures[one_map_per_topic_with_exactly_its_partitions] forall t string :: haskey(c.partitionConsumers, t) ==> haskey(hwms, t) && hwms[t] != nil && (forall p int32 :: haskey(hwms[t], p) == haskey(c.partitionConsumers[t], p)) && (forall p int32 :: haskey(c.partitionConsumers[t], p) ==> hwms[t][p] == c.partitionConsumers[t][p].highWaterMarkOffset + 1)
+//@   ensures[topic_maps_distinct] forall a string, b string :: haskey(c.partitionConsumers, a) && haskey(c.partitionConsumers, b) && a != b ==> hwms[a] != hwms[b]
+//@   nosafety
